@@ -57,7 +57,12 @@ func (d HypergeometicDist) CDF(k float64) float64 {
 	ki := int(k)
 	// Use symmetry to compute the smaller sum.
 	flip := false
-	if ki > (d.Draws+1)/(d.N+1)*(d.K+1) {
+	// (The switch-over point is the mean, roughly; computed in
+	// integers the quotient would always be zero, every k above
+	// the bottom of the support would take the flipped branch, and
+	// in the lower tail of a large population that branch
+	// multiplies an underflowed PMF by an overflowed sum.)
+	if float64(ki) > float64(d.Draws+1)/float64(d.N+1)*float64(d.K+1) {
 		flip = true
 		ki = d.K - ki - 1
 		d.Draws = d.N - d.Draws
